@@ -3,7 +3,9 @@
 Case = a history of operations {write, utime, rename (over), copy2, hash (session, class), hashFresh (default
 `hash_function`), newProcess, cleanUp (victims)} in the Lean driver's encoding (ids into the palettes of
 harness/engines/filehash.py) plus a mode: sessions are `PersistentCache` objects in one worker ("objects"),
-separate OS processes forked from an idle zygote ("procs"), or freshly started interpreters ("interpreters").
+separate OS processes forked from an idle zygote ("procs"), freshly started interpreters ("interpreters"), or fresh
+interpreters each with its own PYTHONHASHSEED ("seeded": `iter_orders` asks for given iteration orders of the focus
+file-set's raw member set in given sessions, the runner searches seeds that produce them in this run's directory).
 
   implementation observable  per hash op: which content version's digest came back (digest looked up among the
                              forced recomputations seen in this history), or "missing"
@@ -50,6 +52,8 @@ META = {
     "(thorough) letters of a 31-letter alphabet and three more hashes; thorough adds all histories of length ≤ 3 over a 25-letter "
     "alphabet); distinct by canonical JSON of (mode, ops); non-trivial = at least two hash operations on existing "
     "files with a file operation somewhere before the last of them",
+    "seeded_mode": "sessions under different PYTHONHASHSEEDs (seeds searched per history so that two sessions iterate the "
+    "member set in two requested orders; confirmed by the worker) with the members' files permuted between the hashes",
     "assumptions": [
         "the digest function is an arbitrary function of (class, content): theorems do not use any property of BLAKE2b",
         "file-set = class + list of top-level member paths (sorted(fspaths)); the key holds lstat(p).st_mtime_ns of every member, in that order",
@@ -79,6 +83,9 @@ OBLIGATIONS = [
         "C09_key_sum_refuted",
         "C09_key_first_refuted",
         "C09_key_unordered_refuted",
+        "C09_key_constructor_order_independent",
+        "C09_key_reversed_members",
+        "C09_key_iterorder_refuted",
         "C09_multiproc",
         "C09_multiproc_fresh",
         "C09_cleanup_witness",
@@ -232,6 +239,63 @@ def gen_history(rng, maxlen: int, mode: str = "objects") -> dict:
     return {"mode": mode, "ops": ops}
 
 
+MULTI_FOCUS = [(4, list(fh.PAIR)), (5, list(fh.TRIPLE)), (3, None), (6, None)]
+
+
+def gen_seeded_history(rng, permute: bool = True) -> dict:
+    """Sessions are fresh interpreters with different PYTHONHASHSEEDs.  A multi-member file-set is created with
+    pairwise different mtimes and hashed in session 0; then the members' files (content AND mtime) are permuted
+    among the member paths (rename or copy2 through spare paths) and the set is hashed in session 1, in session 0
+    and through `hash_function`.  Session 0 and 1 are asked to iterate the raw member set in two given, different
+    orders, and the permutation is the one under which a key that took its mtimes in iteration order would, in
+    session 1, coincide with session 0's key from before the permutation."""
+    cls, ps = rng.choice(MULTI_FOCUS)
+    if ps is None:
+        ps = sorted(rng.sample(FILE_IDS, 2 if cls == 6 else rng.choice([2, 3])))
+    n = len(ps)
+    o0 = rng.sample(range(n), n)
+    o1 = rng.sample(range(n), n)
+    while o1 == o0:
+        o1 = rng.sample(range(n), n)
+    ts = rng.sample(range(NT), n)
+    cs = rng.sample(CIDS, n)
+    ops = [{"op": "write", "p": p, "c": c, "t": t} for p, c, t in zip(ps, cs, ts)]
+    rng.shuffle(ops)
+    ops.append({"op": "hash", "s": 0, "cls": cls, "ps": list(ps)})
+    if rng.random() < 0.3:
+        ops.append({"op": "hashFresh", "cls": cls, "ps": list(ps)})
+    if permute:
+        # member at position o1[k] receives the file that member o0[k] held
+        src_of = {o1[k]: o0[k] for k in range(n)}
+    else:
+        perm = rng.sample(range(n), n)
+        src_of = {k: perm[k] for k in range(n)}
+    spare = [q for q in FILE_IDS if q not in ps][:n]
+    mv = "rename" if rng.random() < 0.6 else "copy2"
+    for k in range(n):
+        ops.append({"op": mv, "p": ps[k], "q": spare[k]})
+    for k in rng.sample(range(n), n):
+        ops.append({"op": mv, "p": spare[src_of[k]], "q": ps[k]})
+    tail = [{"op": "hash", "s": 1, "cls": cls, "ps": list(ps)}, {"op": "hash", "s": 0, "cls": cls, "ps": list(ps)},
+            {"op": "hashFresh", "cls": cls, "ps": list(ps)}]
+    if rng.random() < 0.3:
+        tail.insert(1, {"op": "newProcess", "s": 0})
+    ops += tail
+    return {"mode": "seeded", "focus": [cls, list(ps)], "iter_orders": {"0": o0, "1": o1},
+            "hashseeds": {"fresh": rng.randrange(1, 40)}, "ops": ops}
+
+
+def gen_seeded_random(rng, maxlen: int) -> dict:
+    """An ordinary random history whose sessions run under random, different hash seeds."""
+    c = gen_history(rng, maxlen, "seeded")
+    multi = [o for o in c["ops"] if is_hash(o) and len(o["ps"]) > 1]
+    f = multi[0] if multi else next(o for o in c["ops"] if is_hash(o))
+    c["focus"] = [f["cls"], list(f["ps"])]
+    sd = rng.sample(range(1, 40), 4)
+    c["hashseeds"] = {"0": sd[0], "1": sd[1], "2": sd[2], "fresh": sd[3]}
+    return c
+
+
 def small_alphabet() -> list:
     """25 letters: two file paths, two contents (same size), two mtimes, one session; File on either path and
     SetOf[File] on both."""
@@ -346,6 +410,11 @@ def judge_cases(ctx, cases: list, obs: list, use_model: bool = True):
                 ctx.tie_broken.append({"kind": "match-rule-vs-MtimeFresh", "case": c})
             if o["d7_rule"] and a["fresh"]:
                 ctx.count("rule-matches-but-fresh(clean-up removed the entry)")
+        od = o.get("orders", {})
+        if od.get("wanted"):
+            ctx.count("iteration-orders-wanted", od["wanted"])
+            ctx.count("iteration-orders-seed-found", od["found"])
+            ctx.count("iteration-orders-confirmed-by-worker", od["realised"])
         ag, tot = o["own"]
         ctx.count("ref==own-blake2b", ag)
         ctx.count("ref!=own-blake2b", tot - ag)
@@ -434,6 +503,9 @@ def correspondence(ctx):
         # real processes for some random histories
         b.run([gen_history(ctx.rng, ctx.pick(6, 10), "procs") for _ in range(ctx.pick(12, 60))])
         b.run([gen_history(ctx.rng, ctx.pick(5, 8), "interpreters") for _ in range(ctx.pick(1, 8))])
+        # fresh interpreters under different PYTHONHASHSEEDs: member permutations between sessions, random histories
+        b.run([gen_seeded_history(ctx.rng, permute=(i % 5 != 4)) for i in range(ctx.pick(4, 40))])
+        b.run([gen_seeded_random(ctx.rng, ctx.pick(7, 10)) for _ in range(ctx.pick(1, 10))])
         t2 = time.time()
         # seeded random histories
         maxlen = ctx.pick(8, 12)
